@@ -53,6 +53,8 @@ import (
 const (
 	upperhex = "0123456789ABCDEF"
 	lowerhex = "0123456789abcdef"
+
+	maxInt = int(^uint(0) >> 1)
 )
 
 var hexIntBufPool sync.Pool
@@ -164,12 +166,12 @@ func ParseUintBuf(b []byte) (int, int, error) {
 			}
 			return v, i, nil
 		}
-		vNew := 10*v + int(k)
-		// Test for overflow.
-		if vNew < v {
+		// Test for overflow: 10*v + k must fit in an int. (Comparing the wrapped
+		// result with v misses wrap-arounds that land above v.)
+		if v > (maxInt-int(k))/10 {
 			return -1, i, errTooLongInt
 		}
-		v = vNew
+		v = 10*v + int(k)
 	}
 	return v, n, nil
 }
